@@ -21,8 +21,18 @@ type W struct {
 	enc *json.Encoder
 }
 
+// New writes to the file named by $VERIF_OUT (so that anything the code under test prints to stdout cannot
+// corrupt the case stream), or to stdout when it is unset.
 func New() *W {
-	w := bufio.NewWriterSize(os.Stdout, 1<<20)
+	f := os.Stdout
+	if p := os.Getenv("VERIF_OUT"); p != "" {
+		var err error
+		f, err = os.Create(p)
+		if err != nil {
+			panic(err)
+		}
+	}
+	w := bufio.NewWriterSize(f, 1<<20)
 	e := json.NewEncoder(w)
 	e.SetEscapeHTML(false)
 	return &W{w, e}
